@@ -1,0 +1,70 @@
+//go:build verif
+
+// Contracts for package stanza, read by /verif's VC generator (govc).
+// Comment-only file: compiled only under the "verif" build tag and contains no code.
+package stanza
+
+// ---------------------------------------------------------------------------
+// C17: the un-acknowledged stanza queue
+//
+//@ pred wfQueue(q) := q != nil ==> (forall(k, 0, len(q.Uslice), q.Uslice[k] != nil) && forall(k, 0, len(q.Uslice) - 1, q.Uslice[k].Id < q.Uslice[k+1].Id))
+//@ pred sameQueue(q) := len(q.Uslice) == old(len(q.Uslice)) && forall(k, 0, len(q.Uslice), q.Uslice[k] == old(q.Uslice[k]) && q.Uslice[k].Id == old(q.Uslice[k].Id) && q.Uslice[k].Stz == old(q.Uslice[k].Stz))
+//
+//@ func (*stanza.UnAckQueue).PeekN(uaq, n) (r)
+//@   requires wfQueue(uaq)
+//@   ensures [C17.peekn.nil]   (uaq == nil || n <= 0 || len(uaq.Uslice) == 0) ==> r == nil
+//@   ensures [C17.peekn.len]   (uaq != nil && n > 0) ==> len(r) == min(n, len(uaq.Uslice))
+//@   ensures [C17.peekn.elems] uaq != nil ==> forall(k, 0, len(r), typeof(r[k]) == *UnAckedStz && r[k].(*UnAckedStz) == uaq.Uslice[k])
+//@   ensures [C17.peekn.pure]  uaq != nil ==> sameQueue(uaq)
+//@   ensures fresh(r)
+//@   loop 1:
+//@     invariant 0 <= $i && $i <= n && n <= len(uaq.Uslice) && len(r) == $i && fresh(r)
+//@     invariant forall(k, 0, $i, typeof(r[k]) == *UnAckedStz && r[k].(*UnAckedStz) == uaq.Uslice[k])
+//@     invariant sameQueue(uaq)
+//@     decreases n - $i
+//
+//@ func (*stanza.UnAckQueue).Peek(uaq) (r)
+//@   requires wfQueue(uaq)
+//@   ensures [C17.peek.nil]  (uaq == nil || len(uaq.Uslice) == 0) ==> r == nil
+//@   ensures [C17.peek.head] (uaq != nil && len(uaq.Uslice) > 0) ==> typeof(r) == *UnAckedStz && r.(*UnAckedStz) == uaq.Uslice[0]
+//@   ensures [C17.peek.pure] uaq != nil ==> sameQueue(uaq)
+//
+//@ func (*stanza.UnAckQueue).Pop(uaq) (r)
+//@   requires wfQueue(uaq)
+//@   ensures [C17.pop.nil]  (uaq == nil || old(len(uaq.Uslice)) == 0) ==> r == nil
+//@   ensures [C17.pop.head] (uaq != nil && old(len(uaq.Uslice)) > 0) ==> typeof(r) == *UnAckedStz && r.(*UnAckedStz) == old(uaq.Uslice[0])
+//@   ensures [C17.pop.rest] uaq != nil ==> len(uaq.Uslice) == old(len(uaq.Uslice)) - ite(old(len(uaq.Uslice)) > 0, 1, 0) && forall(k, 0, len(uaq.Uslice), uaq.Uslice[k] == old(uaq.Uslice[k + ite(len(uaq.Uslice) > 0, 1, 0)]))
+//@   ensures [C17.pop.elems] uaq != nil ==> forall(k, 0, old(len(uaq.Uslice)), old(uaq.Uslice[k]).Id == old(uaq.Uslice[k].Id) && old(uaq.Uslice[k]).Stz == old(uaq.Uslice[k].Stz))
+//@   ensures wfQueue(uaq)
+//@   assigns uaq.Uslice
+//
+//@ func (*stanza.UnAckQueue).PopN(uaq, n) (r)
+//@   requires wfQueue(uaq)
+//@   ensures [C17.popn.nil]   (uaq == nil || n <= 0 || old(len(uaq.Uslice)) == 0) ==> r == nil
+//@   ensures [C17.popn.len]   (uaq != nil && n > 0) ==> len(r) == min(n, old(len(uaq.Uslice)))
+//@   ensures [C17.popn.elems] uaq != nil ==> forall(k, 0, len(r), typeof(r[k]) == *UnAckedStz && r[k].(*UnAckedStz) == old(uaq.Uslice[k]))
+//@   ensures [C17.popn.rest]  uaq != nil ==> len(uaq.Uslice) == old(len(uaq.Uslice)) - len(r) && forall(k, 0, len(uaq.Uslice), uaq.Uslice[k] == old(uaq.Uslice[k + len(r)]))
+//@   ensures [C17.popn.stable] uaq != nil ==> forall(k, 0, old(len(uaq.Uslice)), old(uaq.Uslice[k]).Id == old(uaq.Uslice[k].Id) && old(uaq.Uslice[k]).Stz == old(uaq.Uslice[k].Stz))
+//@   ensures wfQueue(uaq)
+//@   ensures fresh(r)
+//@   assigns uaq.Uslice
+//
+//@ func (*stanza.UnAckQueue).Push(uaq, s) (err)
+//@   requires wfQueue(uaq)
+//@   requires typeof(s) == *UnAckedStz ==> s.(*UnAckedStz) != nil
+//@   ensures [C17.push.reject] (uaq != nil && typeof(s) != *UnAckedStz) ==> err != nil && sameQueue(uaq)
+//@   ensures [C17.push.ok]     (uaq != nil && typeof(s) == *UnAckedStz) ==> err == nil && len(uaq.Uslice) == old(len(uaq.Uslice)) + 1
+//@   ensures [C17.push.kept]   (uaq != nil && typeof(s) == *UnAckedStz) ==> forall(k, 0, old(len(uaq.Uslice)), uaq.Uslice[k] == old(uaq.Uslice[k]) && uaq.Uslice[k].Id == old(uaq.Uslice[k].Id) && uaq.Uslice[k].Stz == old(uaq.Uslice[k].Stz))
+//@   ensures [C17.push.last]   (uaq != nil && typeof(s) == *UnAckedStz) ==> fresh(uaq.Uslice[old(len(uaq.Uslice))]) && uaq.Uslice[old(len(uaq.Uslice))].Stz == old(s.(*UnAckedStz).Stz)
+//@   ensures [C17.push.id]     (uaq != nil && typeof(s) == *UnAckedStz) ==> uaq.Uslice[old(len(uaq.Uslice))].Id == ite(old(len(uaq.Uslice)) == 0, 1, old(uaq.Uslice[len(uaq.Uslice) - 1].Id) + 1)
+//@   ensures [C17.push.nilrecv] uaq == nil ==> err == nil
+//@   ensures wfQueue(uaq)
+//@   assigns uaq.Uslice
+//@   elems uaq.Uslice
+//
+//@ func (*stanza.UnAckQueue).Empty(uaq) (r)
+//@   ensures [C17.empty] r == (uaq == nil || len(uaq.Uslice) == 0)
+//@   ensures uaq != nil ==> sameQueue(uaq)
+//
+//@ func stanza.NewUnAckQueue() (q)
+//@   ensures [C17.new] q != nil && fresh(q) && len(q.Uslice) == 0 && wfQueue(q)
